@@ -128,4 +128,10 @@ def early_exit_guard_param(repo: Repo, g: Func, attr: str = 'isVisible') -> List
             for p in ps:
                 if implies_attr(st.test, False, p, attr, repo, g) and p not in out:
                     out.append(p)
+    # the same guard written the other way round: the whole body (after the docstring) is one `if p.attr: ...` without else
+    body = [st for st in g.node.body if not (isinstance(st, ast.Expr) and isinstance(st.value, ast.Constant))]
+    if len(body) == 1 and isinstance(body[0], ast.If) and not body[0].orelse:
+        for p in ps:
+            if implies_attr(body[0].test, True, p, attr, repo, g) and p not in out:
+                out.append(p)
     return out
